@@ -448,6 +448,43 @@ C["C35"] = {
  "stubs": SRV_STUBS + LIVE, "trusted_base": SRV_TB,
 }
 
+# ---------------- C20 / C21 / C22 (storage boundary) ----------------
+BACKENDS = ["bolt", "badger", "pebble", "redis"]
+ST_PKGS = ["./hooks/storage/" + b for b in BACKENDS]
+ST_STUBS = SRV_STUBS + LIVE + [
+ "storage engines: badger, pebble, bbolt and go-redis are replaced at their ~30 call sites (Txn.Set/Delete/Get, iterators, Bucket.Put/Delete/Get/Cursor, DB.Set/Delete/Get/NewIter, HSet/HDel/HGet/HGetAll) by an abstract ordered key->record map with a write log",
+ "encoding/json: replaced at the four MarshalBinary/UnmarshalBinary pairs of hooks/storage by a record copy (assumption: JSON round-trips the tagged fields)",
+ "Hook.Init (opening the database) is not executed; the harness builds the hook with a placeholder handle"]
+def st(h, **kw):
+    return [H(h, pkg="./hooks/storage/" + b, **kw) for b in BACKENDS]
+C["C20"] = {
+ "pkgs": ST_PKGS + ["."],
+ "technique": "bounded symbolic execution of the real storage hooks of all four back ends and of the server's restore path (readStore, load*) above an abstract key->record map: field fidelity with symbolic records, key injectivity with symbolic identifiers, restart equivalence through the real connection handler",
+ "quick": {"harnesses": st("VerifC20Fields") + st("VerifC20Keys") + st("VerifC20KeysClients") + st("VerifC20Restart"), "budget_s": 600, "witnesses": 2, "perm_limit": 1,
+   "bounds": "per back end: one client record with symbolic expiry settings/limits/will, one subscription with all options symbolic, one retained and one in-flight message with symbolic ids, times, properties; two (client id, filter) pairs and two client ids/topics of 1..3 bytes over {: _ / a}; restart after connect + subscribe + retained publish + one unacknowledged QoS 1 delivery (protocol 4/5)"},
+ "thorough": {"harnesses": st("VerifC20Fields") + st("VerifC20Keys") + st("VerifC20KeysClients") + st("VerifC20Restart"), "budget_s": 1800, "witnesses": 4, "perm_limit": 2, "bounds": "as quick with map orders up to 2"},
+ "outside_bounds": ["the storage engines themselves and the JSON codec (stubbed: an LSM tree or a redis server is not a bounded arithmetic kernel)", "longer histories before the restart", "identifiers longer than 3 bytes"],
+ "stubs": ST_STUBS, "trusted_base": SRV_TB,
+}
+C["C21"] = {
+ "pkgs": ST_PKGS + ["."],
+ "technique": "crash-point enumeration as engine decisions: the abstract store keeps a write log, the crash index ranges over every prefix of it, broker B is restored from the prefix through the real readStore/load* and compared with what had been acknowledged to clients by then",
+ "quick": {"harnesses": st("VerifC21Crash"), "budget_s": 900, "witnesses": 2, "perm_limit": 1,
+   "bounds": "history: a clean-session client subscribes and leaves; a persistent session (protocol 4/5) subscribes (SUBACK); a publisher sends a retained QoS 1 message (PUBACK) and a QoS 1 message left unacknowledged by the subscriber; optional takeover of the live session; crash after every storage write of that history; then a Clean Start 1 connection with the clean session's id"},
+ "thorough": {"harnesses": st("VerifC21Crash"), "budget_s": 2400, "witnesses": 4, "perm_limit": 1, "bounds": "as quick"},
+ "outside_bounds": ["torn writes inside one engine transaction", "the window between a PUBACK to the publisher and the storage of the resulting in-flight message (the harness has no log index for the acknowledgement instant)", "longer histories, expiry before the crash"],
+ "stubs": ST_STUBS, "trusted_base": SRV_TB,
+}
+C["C22"] = {
+ "pkgs": ["./config"] + ST_PKGS + ["."],
+ "technique": "differential symbolic execution: the same solver-chosen storage events with the same symbolic arguments are delivered to the real hooks of the four back ends, each on its own abstract store; the Stored* answers are compared as sets (equal-in => equal-out per event gives equality after any sequence by induction)",
+ "quick": {"harnesses": [H("VerifC22Step", pkg="./config", EVENTS=1)], "budget_s": 400, "witnesses": 6, "perm_limit": 1,
+   "bounds": "one event among the 12 storage hook events with symbolic arguments (client in {a,b}, expire/taken-over flags, filter and topic from 2 each, retain result in {1,-1,0}, 16-bit packet id, 32-bit session expiry, QoS) from empty stores"},
+ "thorough": {"harnesses": [H("VerifC22Step", pkg="./config", EVENTS=2)], "budget_s": 2400, "witnesses": 12, "perm_limit": 1, "bounds": "every sequence of two events"},
+ "outside_bounds": ["sequences longer than two events (covered inductively only if equal Stored* answers imply equal stores, which holds for these key-value hooks)", "the engines and JSON (stubbed)", "store-internal ID/T fields"],
+ "stubs": ST_STUBS, "trusted_base": SRV_TB,
+}
+
 def main():
     os.makedirs(os.path.join(root, "checks"), exist_ok=True)
     for cid, c in C.items():
